@@ -670,12 +670,47 @@ pub fn run_c25(ctx: &Ctx) -> i32 {
             }
             // quantised amounts
             let q = ser::AMOUNT_QUANTIZATION_FACTOR;
-            let amt: u128 = match rng.gen_range(0..6) {
+            let amt: u128 = match rng.gen_range(0..9) {
                 0 => (M32 as u128) * q + rng.gen_range(0..q),
                 1 => (M32 as u128 + 1) * q,
                 2 => (M32 as u128 + 1) * q - 1,
                 3 => u128::MAX,
                 4 => rng.gen::<u128>(),
+                5 | 6 => {
+                    // truncation aliases: quantised value = hi * 2^w + lo with a valid-looking low part,
+                    // for every machine width a narrowing cast could cut at (and the field modulus)
+                    let lo: u128 = match rng.gen_range(0..4) {
+                        0 => 0,
+                        1 => M32 as u128,
+                        2 => rng.gen_range(0..8),
+                        _ => rng.gen_range(0..=M32 as u128),
+                    };
+                    let max_q = u128::MAX / q;
+                    let base: u128 = match rng.gen_range(0..8) {
+                        0 => 1u128 << 32,
+                        1 => 1u128 << 64,
+                        2 => P as u128,
+                        3 => 1u128 << 63,
+                        4 => 1u128 << 33,
+                        5 => 1u128 << rng.gen_range(32..94),
+                        6 => 1u128 << 48,
+                        _ => 1u128 << 80,
+                    };
+                    let hi_max = ((max_q - lo) / base).max(1);
+                    let hi: u128 = match rng.gen_range(0..3) {
+                        0 => 1,
+                        1 => hi_max,
+                        _ => rng.gen_range(1..=hi_max),
+                    };
+                    let qv = (hi * base + lo).min(max_q);
+                    (qv * q).saturating_add(if qv < max_q { rng.gen_range(0..q) } else { 0 })
+                }
+                7 => {
+                    // quantised values just around every power of two
+                    let sh = rng.gen_range(30..95u32);
+                    let qv = ((1u128 << sh) + rng.gen_range(0..3) - 1).min(u128::MAX / q);
+                    qv * q + if qv < u128::MAX / q { rng.gen_range(0..q) } else { 0 }
+                }
                 _ => rng.gen_range(0..(M32 as u128 + 2) * q),
             };
             rep.eval();
